@@ -581,6 +581,63 @@ namespace sim
       std::string file;
     };
 
+    // distance_to_plane answers against a fresh world asked the same question alone: the entry point has no
+    // memory either, whoever else asks for whichever feature at the same time
+    void distance_oracle(const Scenario &s, const std::vector<OpRef> &all, RunResult &res)
+    {
+      std::map<std::string, std::vector<const OpRef *>> by_file;
+      for (const auto &q : all)
+        if (q.op->op == "dist" && (q.resp->status == 0 || q.resp->status == 1) && !q.op->noref && !q.file.empty())
+          by_file[q.file].push_back(&q);
+      for (auto &bf : by_file)
+        {
+          try
+            {
+              simfs::set_faults({});
+              WorldBuilder::World ref(bf.first);
+              for (const OpRef *q : bf.second)
+                {
+                  std::vector<double> want;
+                  bool threw = false;
+                  try
+                    {
+                      const std::array<double, 3> p3 = {{q->op->p[0], q->op->p[1], q->op->p[2]}};
+                      const WorldBuilder::Objects::PlaneDistances pd = ref.distance_to_plane(p3, q->op->d, q->op->name);
+                      want = {pd.get_distance_from_surface(), pd.get_distance_along_surface()};
+                    }
+                  catch (std::exception &)
+                    {
+                      threw = true;
+                    }
+                  res.counters["evaluations"]++;
+                  res.counters["distance_answers_compared"]++;
+                  bool same = threw == (q->resp->status == 1) && (threw || want.size() == q->resp->v.size());
+                  for (size_t j = 0; same && !threw && j < want.size(); ++j)
+                    same = bits_equal(want[j], q->resp->v[j]);
+                  if (!same)
+                    {
+                      Violation v;
+                      v.cls = s.property + "/distance-mismatch";
+                      std::ostringstream o;
+                      o.precision(17);
+                      o << "op " << q->index << (q->thread >= 0 ? " of thread " + std::to_string(q->thread) : std::string()) << " distance_to_plane('" << q->op->name
+                        << "') = " << (q->resp->status == 1 ? std::string("exception") : fmt_vec(q->resp->v, 0, q->resp->v.size()))
+                        << " but a fresh world asked alone says " << (threw ? std::string("exception") : fmt_vec(want, 0, want.size()));
+                      v.detail = o.str();
+                      v.site = "dist";
+                      v.op_index = q->index;
+                      res.violations.push_back(v);
+                      break;
+                    }
+                }
+            }
+          catch (std::exception &)
+            {
+              res.counters["oracle_ref_unbuildable"]++;
+            }
+        }
+    }
+
     void stateless_oracle(const Scenario &s, const std::vector<OpRef> &queries, RunResult &res)
     {
       const std::string P = s.property;
@@ -1363,7 +1420,10 @@ namespace sim
     eq_oracle(s, all, res);
     neq_oracle(s, all, res);
     if (s.oracle == "stateless")
-      stateless_oracle(s, queries, res);
+      {
+        stateless_oracle(s, queries, res);
+        distance_oracle(s, all, res);
+      }
     for (int i = 0; i < 16; ++i)
       if (shortcut_fired(i))
         res.counters["buggify_S" + std::to_string(i)] += static_cast<long>(shortcut_fired(i));
